@@ -2,7 +2,7 @@ SPECIFICATION Spec
 CONSTANTS
   Senders = {"s1", "s2"}
   Drainers = {"d1"}
-  MsgsPer = 1
+  MsgsPer = 2
   ConsumerMayExit = TRUE
 INVARIANTS
   TypeOK NothingAfterMarker MarkerUnique AtMostOnce ErrNeverHandled RealTimeFifo QueueFifo
